@@ -9,6 +9,9 @@
 #  3. Every lifetime row printed by TLC is bound to the real client: a channel is opened with that
 #     lifetime and the delay the library computed is read from the hook renew.sched and compared
 #     with the window of the row.
+#     Secured modes: a request is pending during a renewal and its response arrives afterwards,
+#     protected with the token that was current when the request was made (written with the old keys
+#     by the harness, since the library's server channel has none left): it must be accepted.
 #  4. Real renewals (library timer, 2-3 s lifetimes, None and SignAndEncrypt) with client requests
 #     and delayed server responses in flight all the time: every request must complete, no channel
 #     error, exactly one renewal per token inside the window.
@@ -21,7 +24,7 @@ def body(run):
     jobs = [
         lambda: run.tlc("ScToken", "ScToken", "ScToken_rel.cfg", mode="gen", label="contract: renewal window for every lifetime (rows)", timeout=1500),
         lambda: run.tlc("ScToken", "ScToken", "ScToken_mac.cfg", label="contract: timed machine", workers=2, timeout=1500),
-        lambda: run.tlc("ScToken", "ScToken", "ScToken_dev_floor.cfg", expect="violation", count=False, workers=1, label="as-is: whole-second delay"),
+        lambda: run.tlc("ScToken", "ScToken", "ScToken_dev_floor.cfg", expect="violation", count=False, workers=1, label="demo (repaired 2282172): whole-second delay"),
         lambda: run.tlc("ScToken", "ScToken", "ScToken_dev_rekey.cfg", expect="violation", count=False, workers=1, label="as-is: server re-keys in place"),
         lambda: exe.__setitem__(0, run.go_build("scsend")),
     ]
@@ -48,7 +51,14 @@ def body(run):
     for i, r in enumerate(runs):
         r.update({"n": base + i, "mode": "renewrun"})
         cases.append(r)
-    run.log("TLC: %d states; %d lifetime rows, %d renewal runs" % (run.cov["states"], len(rows), len(runs)))
+    # machine behaviour  Send(s2c, old token) ; Renew ; Recv : a response protected with the token that was
+    # current when its request was made arrives after the renewal has completed (InvUsable)
+    old = [("Basic256Sha256", "SignAndEncrypt"), ("Basic256Sha256", "Sign")]
+    if not q:
+        old += [(pol, m) for pol in ("Basic128Rsa15", "Basic256", "Aes128_Sha256_RsaOaep", "Aes256_Sha256_RsaPss") for m in ("Sign", "SignAndEncrypt")]
+    for pol, m in old:
+        cases.append({"n": len(cases), "mode": "oldtoken", "policy": pol, "secmode": m})
+    run.log("TLC: %d states; %d lifetime rows, %d renewal runs, %d old-token responses" % (run.cov["states"], len(rows), len(runs), len(old)))
     results = run.go_run(exe[0], [], cases=cases, timeout=run.pick(600, 2400))
     if len(results) < len(cases):
         raise vf.Inconclusive("harness returned %d results for %d cases" % (len(results), len(cases)))
@@ -56,6 +66,10 @@ def body(run):
     for r in results:
         o = r.get("obs") or {}
         if r.get("status") != "ok":
+            continue
+        if r["case"]["mode"] == "oldtoken":
+            if o.get("problem"):
+                r["status"], r["key"], r["detail"] = "violation", o["problem"] + "-" + r["case"]["secmode"].lower(), "%s/%s: %s" % (r["case"]["policy"], r["case"]["secmode"], o["problem_detail"])
             continue
         if r["case"]["mode"] == "lifetime":
             row = byl[o["lifetime_ms"]]
@@ -109,7 +123,7 @@ def body(run):
         shifted = [w[1], 2 * w[1]]
         run.cov["binding_demo"] = {"observed_delay_ms": r["obs"]["renew_delay_ms"], "shifted_window": shifted,
                                    "rejected": not (shifted[0] <= r["obs"]["renew_delay_ms"] < shifted[1])}
-    run.cov["rule"] = "one case per lifetime row printed by TLC (class = lifetime) + one per renewal run (policy x mode x lifetime)"
+    run.cov["rule"] = "one case per lifetime row printed by TLC (class = lifetime) + one per renewal run (policy x mode x lifetime) + one old-token response per policy x mode"
     run.assumptions += [
         "the server channel of the pair revises the lifetime to the requested value; the delay is read from the renew.sched hook (no waiting)",
         "renewal runs: slack %d ms for the distance of two token installations; request timeout 3 s" % SLACK_MS,
